@@ -20,6 +20,7 @@ Implementation: Comment parsing with TypeScript-specific syntax handling, uses s
 from src.core.base import BaseLintContext
 from src.core.types import Violation
 from src.core.violation_utils import get_violation_line, has_typescript_noqa
+from src.linter_config.directive_markers import has_bare_line_ignore
 from src.linter_config.ignore import get_ignore_parser
 
 
@@ -73,9 +74,7 @@ class TypeScriptIgnoreChecker:
         if "// thailint: ignore[magic-numbers]" in line_text:
             return True
 
-        if "// thailint: ignore" in line_text:
-            after_ignore = line_text.split("// thailint: ignore")[1].split("//")[0]
-            if "[" not in after_ignore:
-                return True
+        if has_bare_line_ignore(line_text):
+            return True
 
         return has_typescript_noqa(line_text)
